@@ -8,6 +8,7 @@ import (
 	"encoding/json"
 	"fmt"
 	"os"
+	"runtime"
 	"strconv"
 	"strings"
 	"sync"
@@ -15,9 +16,10 @@ import (
 )
 
 type replay struct {
-	Model   map[string]uint64 `json:"model"`
-	Choices map[string]int    `json:"choices"`
-	Params  map[string]int    `json:"params"`
+	Model    map[string]uint64 `json:"model"`
+	Choices  map[string]int    `json:"choices"`
+	Params   map[string]int    `json:"params"`
+	Schedule []string          `json:"schedule"`
 }
 
 var (
@@ -58,6 +60,10 @@ func Reset() {
 	Observed = nil
 	Failed = nil
 	stamp = 0
+	gmu.Lock()
+	gpos = 0
+	gnames = map[string]string{}
+	gmu.Unlock()
 }
 
 func uniq(name string) string {
@@ -177,16 +183,90 @@ func Finding(id string, c bool) bool { return c }
 // WaitIdle waits until background goroutines have quiesced. Natively: a short real-time wait.
 func WaitIdle() { time.Sleep(time.Duration(Param("native_idle_ms", 60)) * time.Millisecond) }
 
-func Yield()                     {}
+// Go starts a named harness thread. Under gosym it is an interpreted thread; natively a
+// goroutine whose passages through Yield are ordered by the replay file's schedule.
+func Go(name string, f func()) {
+	go func() {
+		id := goid()
+		gmu.Lock()
+		gnames[id] = name
+		gmu.Unlock()
+		f()
+	}()
+}
+
+var (
+	gmu    sync.Mutex
+	gcond  = sync.NewCond(&gmu)
+	gnames = map[string]string{}
+	gpos   int
+)
+
+func goid() string {
+	var buf [64]byte
+	n := runtime.Stack(buf[:], false)
+	f := strings.Fields(string(buf[:n]))
+	if len(f) >= 2 {
+		return f[1]
+	}
+	return ""
+}
+
+// Yield is a scheduling point. Natively, a named thread waits here for its turn in the
+// recorded schedule (unnamed goroutines and exhausted schedules pass freely).
+func Yield() { gate(nil) }
+
+// gate waits for the calling thread's turn and runs f (if any) before the next thread may pass.
+func gate(f func()) {
+	mu.Lock()
+	load()
+	sched := rp.Schedule
+	mu.Unlock()
+	id := goid()
+	gmu.Lock()
+	defer gmu.Unlock()
+	if f != nil {
+		defer f()
+	}
+	if len(sched) == 0 {
+		return
+	}
+	name := gnames[id]
+	if name == "" {
+		return
+	}
+	deadline := time.Now().Add(5 * time.Second)
+	for gpos < len(sched) && sched[gpos] != name {
+		if time.Now().After(deadline) {
+			return // diverged from the recorded schedule: let the run finish (reported as unconfirmed)
+		}
+		waitCond(100 * time.Millisecond)
+	}
+	if gpos < len(sched) {
+		gpos++
+	}
+	gcond.Broadcast()
+}
+
+func waitCond(d time.Duration) {
+	t := time.AfterFunc(d, func() { gcond.Broadcast() })
+	gcond.Wait()
+	t.Stop()
+}
+
 func ExploreSchedules(bound int) {}
 func StopExploring()             {}
 func Hold()                      {}
 func Release()                   {}
+
+// Stamp returns the next value of a global monotone counter; it is a scheduling point.
 func Stamp() int {
-	mu.Lock()
-	defer mu.Unlock()
-	stamp++
-	return stamp
+	var v int
+	gate(func() {
+		stamp++
+		v = stamp
+	})
+	return v
 }
 func ChanCap(site string, n int) {}
 func AdvanceClock()              {}
